@@ -218,11 +218,17 @@ def _is_state_summary(prog, ci, hooks):
     falses = [p for v, p in vals if v == Const(False)]
     trues = [p for v, p in vals if v == Const(True)]
     if len(falses) + len(trues) == len(vals) and trues and falses:
-        okf = all(any(isinstance(c, App) and c.op == 'mcall' and
-                      c.args[1] == Const('is_a_state_formula') and not pol
-                      for (c, pol) in p.pc) and
-                  any(n[0] == 'exit-in-loop' for n in p.notes)
-                  for p in falses)
+        def _exit_on_nonstate(p):
+            for (c, pol) in p.pc:
+                if pol and isinstance(c, App) and c.op == 'exists':
+                    for cp in c.args[2].items:
+                        cc, cpol = cp.items
+                        if isinstance(cc, App) and cc.op == 'mcall' and \
+                                cc.args[1] == Const('is_a_state_formula') \
+                                and cpol == Const(False):
+                            return True
+            return False
+        okf = all(_exit_on_nonstate(p) for p in falses)
         okt = all(all(isinstance(c, App) and c.op == 'exists' and not pol
                       for (c, pol) in p.pc) for p in trues)
         if okf and okt:
